@@ -31,8 +31,9 @@ _RULE = re.compile(r'rule\s+(\S+)\s+`([^`]*)`\s*=>\s*`([^`]*)`\s*(.*)$')
 _GHOST_OK = re.compile(r'^(proof\s*\{|let\s+ghost\b|let\s+tracked\b|assert\b|assume\b|invariant\b|invariant_except_break\b|ensures\b|requires\b|decreases\b|recommends\b|opens_invariants\b|no_unwind\b|//)')
 
 class Extract:
-    def __init__(self, kind, name, impl, file):
-        self.kind, self.name, self.impl, self.file = kind, name, impl, file
+    def __init__(self, kind, name, impl, file, in_fn=None):
+        self.kind, self.name, self.impl, self.file, self.in_fn = kind, name, impl, file, in_fn
+        self.stub = False
         self.rules = []
         self.ret = None
         self.sections = []   # (anchor tuple, text)
@@ -90,6 +91,25 @@ def parse(path):
                 unit.source = d.split()[1]
             elif d.startswith('rule '):
                 unit.rules.append(_parse_rule(d, lineno))
+            elif d.startswith('contract-of '):
+                # //@contract-of UNIT FN [impl=`..`]: the verified contract of FN in another unit, as an assumed
+                # (external_body) stub here; the other unit must be run by the same check
+                flush_text()
+                m = re.match(r'contract-of\s+(\w+)\s+(\w+)(.*)$', d)
+                impl = re.search(r'impl=`([^`]*)`', m.group(3))
+                other = parse(os.path.join(os.path.dirname(path), m.group(1) + '.vspec'))
+                cands = [e for k, e in other.parts if k == 'extract' and e.kind == 'fn' and e.name == m.group(2)
+                         and (impl is None or e.impl == impl.group(1))]
+                if len(cands) != 1:
+                    raise ScanError('vspec line %d: contract-of %s %s matched %d extracts' % (lineno, m.group(1), m.group(2), len(cands)))
+                import copy
+                ex = copy.copy(cands[0])
+                ex.sections = [(sec, body) for sec, body in ex.sections if sec[0] == 'contract']
+                ex.stub = True
+                ex.canary = False
+                ex.unit_rules = list(other.rules)
+                ex.from_unit = other.name
+                unit.parts.append(('extract', ex))
             elif d.startswith('include '):
                 inc = os.path.join(os.path.dirname(path), d.split()[1])
                 buf.append(open(inc).read())
@@ -101,7 +121,9 @@ def parse(path):
                 rest = m.group(3)
                 impl = re.search(r'impl=`([^`]*)`', rest)
                 f = re.search(r'file=(\S+)', rest)
-                cur = Extract(m.group(1), m.group(2), impl.group(1) if impl else None, f.group(1) if f else unit.source)
+                inf = re.search(r'in_fn=(\w+)', rest)
+                cur = Extract(m.group(1), m.group(2), impl.group(1) if impl else None, f.group(1) if f else unit.source,
+                              inf.group(1) if inf else None)
                 cur.line = lineno
             elif d.startswith('#') or not d:
                 pass
@@ -179,12 +201,13 @@ def build_item(repo, unit, ex, canary, log):
         src = open(path).read()
     except OSError as e:
         raise ScanError('lost anchor: cannot read %s: %s' % (ex.file, e))
-    item = rscan.locate(src, dict(kind=ex.kind, name=ex.name, impl=ex.impl))
+    item = rscan.locate(src, dict(kind=ex.kind, name=ex.name, impl=ex.impl, in_fn=ex.in_fn))
     orig = src[item.start:item.end]
     where = '%s:%s' % (ex.file, ex.name)
     text = rscan.strip_comments(orig)
     text = _strip_attrs(text, log, where)
-    rules = [(r[0], r[1], r[2], None) for r in R0_PATTERNS] + ex.rules + unit.rules_for(ex)  # item-level rules take priority
+    urules = ex.unit_rules if getattr(ex, 'stub', False) else unit.rules_for(ex)
+    rules = [(r[0], r[1], r[2], None) for r in R0_PATTERNS] + ex.rules + urules  # item-level rules take priority
     text = rscan.apply_rules(text, rules, log, where)
     rewritten = text
     inserts = []   # (offset, order, id, text)
@@ -237,6 +260,7 @@ def build_item(repo, unit, ex, canary, log):
         cur += len(body)
     out.append(rewritten[pos:])
     final = ''.join(out)
+    final_full = final
     # integrity: removing inserted spans gives back the rewritten text byte for byte
     chk = []
     p = 0
@@ -245,7 +269,14 @@ def build_item(repo, unit, ex, canary, log):
     chk.append(final[p:])
     if ''.join(chk) != rewritten:
         raise ScanError('splice integrity check failed for ' + where)
-    info = dict(name=ex.name, kind=ex.kind, impl=ex.impl, file=ex.file,
+    if getattr(ex, 'stub', False):
+        # keep signature + contract, replace the body: an assumed contract (verified in unit ex.from_unit)
+        bo = shape.body_open + sum(len(b) for off, _, _, b in inserts if off <= shape.body_open)
+        pre = '#[verifier::external_body]\n'
+        final = pre + final[:bo] + '{ unimplemented!() }'
+        spans = [(a + len(pre), b + len(pre), 'assumed:' + sid, body) for a, b, sid, body in spans if b <= bo]
+    info = dict(name=ex.name, kind=ex.kind, impl=ex.impl, file=ex.file, stub=getattr(ex, 'stub', False),
+                from_unit=getattr(ex, 'from_unit', None),
                 src_range=[item.start, item.end],
                 src_line=src.count('\n', 0, item.start) + 1,
                 sha256=hashlib.sha256(orig.encode()).hexdigest(),
